@@ -84,7 +84,9 @@ theorem validateAndAdjust_fields {c : ChanState} {p : PulseIn} {ref : Option Rat
     · cases h
     · split at h
       · cases h
-      · injection h with h; subst h; exact ⟨rfl, rfl, rfl⟩
+      · split at h
+        · cases h
+        · injection h with h; subst h; exact ⟨rfl, rfl, rfl⟩
 
 /-- `_add` keeps the EOM invariant when the pulse handed in is square at the setpoint of the
 open block of its channel (if there is one). -/
